@@ -1365,4 +1365,34 @@ theorem never_valid_otherwise (h : Hash) (cfg : Cfg) (dbOk : Bool) (ch : Ch) (w 
     · exact .inr (.inr (.inr ⟨r, a, b⟩))
   exact ⟨this, by unfold authzAfter; simp [this]⟩
 
+/-! ## 10. the owning authorization: only `Authorization.UpdateStatus` decides its status -/
+
+/-- an authorization is valid after `UpdateStatus` only if it already was, or it was pending, not
+    expired, and one of its challenges is valid -/
+theorem authz_valid_cause (az : AzRec) (cv : Bool) :
+    authzUpdateStatus az cv = .valid →
+      az.status = .valid ∨ (az.status = .pending ∧ az.expired = false ∧ cv = true) := by
+  unfold authzUpdateStatus
+  cases hs : az.status <;> simp
+  cases az.expired <;> cases cv <;> simp
+
+/-- **A late but genuine attestation revives nothing**: whatever `deviceAttest01Validate` does
+    (any payload, any outcome, also a *valid* challenge), an authorization that is stored invalid,
+    or pending but expired, is not valid afterwards — the validator writes the fingerprint into the
+    record, never its status or expiry. -/
+theorem authz_not_revived (h : Hash) (dbOk : Bool) (ch : Ch) (i : DaIn) (o : Outcome) (az : AzRec)
+    (_ : deviceAttest01Validate h dbOk ch i = .val o)
+    (hd : az.status = .invalid ∨ (az.status = .pending ∧ az.expired = true)) :
+    authzUpdateStatus (daAuthzRecord az o) (o.status = .valid) ≠ .valid := by
+  intro hv
+  rcases authz_valid_cause _ _ hv with h1 | ⟨h1, h2, _⟩ <;> unfold daAuthzRecord at h1
+  · rcases hd with hd | ⟨hd, _⟩ <;> rw [hd] at h1 <;> cases h1
+  · unfold daAuthzRecord at h2
+    rcases hd with hd | ⟨_, hd⟩
+    · rw [hd] at h1; cases h1
+    · rw [hd] at h2; cases h2
+
+example : authzUpdateStatus (daAuthzRecord ⟨.pending, false⟩ ⟨.valid, .none, .ok, .none, true⟩) true = .valid := by decide
+example : authzUpdateStatus (daAuthzRecord ⟨.pending, true⟩ ⟨.valid, .none, .ok, .none, true⟩) true = .invalid := by decide
+
 end Verif.AcmeChallenge
